@@ -10,7 +10,13 @@
      remaster_fixpoint            master (tree_of (parse (master t))) = master t, byte for byte, and the
                                   layout (directory extents, file extents) is the same
    Helper files: ParseScan (one extent), ParseTrack / ParseRecord (one record), ParseDir / ParseDirAll (one
-   directory), ParseWalk (the deque), ParseTree (tree_of), ParseShare (inode sharing). *)
+   directory), ParseWalk (the deque), ParseTree (tree_of).
+   Further results, in files of their own:
+     ParseShareWalk.parse_shares_inodes_iff_same_extent  (for ANY image) two non-directory records share an
+                                  Inode iff both have data and the same extent; empty files: one Inode each
+     ParseWrite.reopen_write_fixpoint  write_fp of the opened, unedited object gives the image back (no reshuffle)
+     ParseExamples                non-vacuity; graph_of_level, parse_infers_level_refuted,
+                                  parse_truncation_refuted, parse_share_lengths_differ *)
 From Coq Require Import ZArith List Bool Lia ZifyBool.
 From PV.Base Require Import Prim ListX.
 From PV.Gen Require Import GenConst GenFun.
